@@ -421,11 +421,26 @@ func check(c Case, o *pbt.Obs) *pbt.Failure {
 							sig += fmt.Sprintf("%d=%d;", it.Id, model[it.Id])
 						}
 						for i := 0; i < c.Nodes; i++ {
-							if !w.down[i] {
-								for _, g := range w.cl.Groups(i, slot) {
-									if st := g.VerifStatus(); st.Commit != st.Applied {
-										sig += fmt.Sprintf("applying%d/%d@%d;", st.Applied, st.Commit, time.Now().UnixNano())
-									}
+							if w.down[i] {
+								continue
+							}
+							ds := w.cl.Dataset(i, slot)
+							if ds == nil {
+								continue
+							}
+							for p := 0; p < ds.VerifPartitionCount(); p++ {
+								g := ds.VerifPartitionRaft(p)
+								if g == nil {
+									continue
+								}
+								st := g.VerifStatus()
+								last := st.Commit
+								if m := w.cl.Mon(i, ds.VerifPartitionId(p)); m != nil {
+									last = m.DurableView().LastIndex
+								}
+								// anything appended but not applied yet (committed or not) may still change the picture
+								if st.Commit != st.Applied || last > st.Applied {
+									sig += fmt.Sprintf("pending(applied %d, commit %d, last %d)@%d;", st.Applied, st.Commit, last, time.Now().UnixNano())
 								}
 							}
 						}
@@ -499,7 +514,7 @@ func check(c Case, o *pbt.Obs) *pbt.Failure {
 						}
 					}
 					if allApplied && anyJudgeable && (strings.Contains(err.Error(), "deadline") || strings.Contains(err.Error(), "canceled")) {
-						setFail(pbt.Failf("C11:outcome-lost", "%s (pause mode %d): every item of the batch was applied on healthy partitions but the caller got %v instead of the outcome", where, op.Pause, err))
+						setFail(pbt.Failf("C11:outcome-lost", "%s (pause mode %d): every item of the batch was applied on healthy partitions but the caller got %v instead of the outcome", where, op.Pause, err).Timed())
 						return
 					}
 					batchTouchesBadPartition = true // treat as undetermined: re-read the items below
@@ -602,7 +617,7 @@ func check(c Case, o *pbt.Obs) *pbt.Failure {
 						found, gotVer, absentSomewhere = w.lookupAll(id)
 						applied := (want == nil) && ((next == 0 && absentSomewhere && cur != 0) || (next != 0 && found && gotVer == next))
 						if applied {
-							setFail(pbt.Failf("C11:outcome-lost", "%s (pause mode %d): the proposal was applied on a healthy partition (item #%d now found=%v version=%d, model outcome %v) but the caller got %v instead of its outcome", where, op.Pause, it.Id, found, gotVer, want, itemErr))
+							setFail(pbt.Failf("C11:outcome-lost", "%s (pause mode %d): the proposal was applied on a healthy partition (item #%d now found=%v version=%d, model outcome %v) but the caller got %v instead of its outcome", where, op.Pause, it.Id, found, gotVer, want, itemErr).Timed())
 							return
 						}
 						// no visible effect: the proposal may have been dropped (no leader at that moment) or, for an expected
